@@ -202,7 +202,7 @@ func init() {
 			if tier == "thorough" {
 				return []*engine.Scenario{mk("c06-slash", [][]world.Op{s1, s2, s3, s4}, []int{3, 3, 0, 2, 0}, 7)}
 			}
-			return []*engine.Scenario{mk("c06-slash", [][]world.Op{s1, s2, s3, s4}, []int{2, 2, 0, 1, 0}, 4)}
+			return []*engine.Scenario{mk("c06-slash", [][]world.Op{s1, s2, s3, s4}, []int{2, 2, 0, 1, 0}, 5)}
 		},
 		Assumptions: []string{
 			"fractions {0.01%, 1%, 5%, 1/3, 50%, 99%, 100%}; the case f=1 with the slashed validator holding every share of the asset (g undefined) is excluded from the proportionality check, staked total and custody are still checked",
